@@ -14,15 +14,23 @@ def plan(tier, seed):
         for hi in range(1, nhost):
             for n in ((0, 1, 2) if tier == 'quick' else (0, 1, 2, 3)):
                 units.append(dict(hfile='comments.py', fname='c10_payload', args=(ci, hi, n, False)))
+        # what stands directly before the %: text, nothing, a zero-argument command, blanks; how the line ends: LF, CR, CRLF
+        for lead in range(5):
+            for term in range(3):
+                if lead == 0 and term == 0:
+                    continue
+                for hi in ((0, 2, 6, 11, 13) if tier == 'quick' else range(nhost)):
+                    units.append(dict(hfile='comments.py', fname='c10_payload', args=(ci, hi, 2, False, lead, term)))
         for k in range(0, 5):
             units.append(dict(hfile='comments.py', fname='c10_backslashes', args=(ci, k, 2 if tier == 'quick' else 3)))
     for n in range(0, nmax + 2):
         units.append(dict(hfile='comments.py', fname='c10_payload', args=(0, 0, n, True)))
     for hi in range(1, nhost):
-        units.append(dict(hfile='comments.py', fname='c10_payload', args=(0, hi, 1, True)))
+        for lead in range(5):
+            units.append(dict(hfile='comments.py', fname='c10_payload', args=(0, hi, 1, True, lead, 0)))
     return dict(units=units,
                 bounds={'contexts': '%d contexts (top, env body, bracket/brace argument, group, item, $ $$ \\( \\[ math, math env, directly after \\item, env bracket arg, nested arg)' % nctx,
                         'payload': 'FREE(0..%d) over all code points except LF/CR; %d hostile prefixes (closers, openers, \\end{..}, \\item, %%, backslashes) + FREE' % (nmax, nhost - 1),
-                        'termination': 'line break (all contexts) and end of input (top level)', 'backslashes': '0..4 before the %'},
-                outside=['payloads longer than the bound', 'CR-terminated comment lines'],
+                        'termination': 'LF, CR and CRLF (all contexts) and end of input (top level)', 'before_the_percent': 'text, nothing, a zero-argument command, each also followed by a blank', 'backslashes': '0..4 before the %'},
+                outside=['payloads longer than the bound'],
                 assumptions=['reference tree = tree of the same document with the payload replaced by x..x'])
